@@ -204,3 +204,82 @@ Theorem stage1_identity_refuted :
            (HorizonCount2.count_of (BinNums.Zpos (BinNums.xI BinNums.xH)) s').
 Proof. exact HorizonCount2.stage1_identity_refuted. Qed.
 Print Assumptions stage1_identity_refuted.
+
+(* ---- Horizon2 ---- *)
+From CiwV.Inv Require Horizon2.
+
+Theorem engine_horizon2 :
+  forall (cf : State2.config) (T : BinNums.Z) 
+         (ds : list State2.draws) (s s' : State2.sim)
+         (rest : list State2.draws),
+       Clock2.scope cf = true ->
+       Conserve2.WFx2 nil s ->
+       Horizon2.Hzn2 cf s ->
+       HorizonCount2.run_until2 cf T s ds = State2.Ok (s', rest) ->
+       exists (used : list State2.draws) (tr : list State2.sim),
+         ds = (used ++ rest)%list /\
+         length tr = length used /\
+         Codec2.run_many cf s used = State2.Ok s' /\
+         (forall (k : nat) (x : State2.sim),
+          List.nth_error tr k = Some x ->
+          Codec2.run_many cf s (List.firstn k used) = State2.Ok x) /\
+         (rest <> nil -> HorizonCount2.before2 T s' = false) /\
+         Conserve2.WFx2 nil s' /\
+         (List.Forall Clock2.DrawsOK used ->
+          List.Forall
+            (fun x : State2.sim =>
+             HorizonCount2.next_date2 x = Some (State2.now x) /\
+             BinInt.Z.lt (State2.now x) T) tr /\
+          HorizonCount2.chain (State2.now s)
+            (List.map State2.now tr ++ State2.now s' :: nil) /\
+          List.Forall (Horizon2.Hzn2 cf) tr /\
+          Horizon2.Hzn2 cf s' /\
+          (HorizonCount2.before2 T s' = false ->
+           (BinInt.Z.le T (State2.now s') \/ Clock2.nothing_scheduled s') /\
+           Horizon2.NothingBefore2 cf T s')).
+Proof. exact Horizon2.engine_horizon2. Qed.
+Print Assumptions engine_horizon2.
+
+Theorem Hzn2_means :
+  forall (cf : State2.config) (T : BinNums.Z) (s : State2.sim),
+       Horizon2.Hzn2 cf s ->
+       HorizonCount2.before2 T s = false ->
+       (BinInt.Z.le T (State2.now s) \/ Clock2.nothing_scheduled s) /\
+       Horizon2.NothingBefore2 cf T s.
+Proof. exact Horizon2.Hzn2_means. Qed.
+Print Assumptions Hzn2_means.
+
+Theorem run_many_hzn2 :
+  forall cf : State2.config,
+       Clock2.scope cf = true ->
+       forall (ds : list State2.draws) (s s' : State2.sim),
+       Horizon2.Hzn2 cf s ->
+       List.Forall Clock2.DrawsOK ds ->
+       Codec2.run_many cf s ds = State2.Ok s' ->
+       Horizon2.Hzn2 cf s' /\ BinInt.Z.le (State2.now s) (State2.now s').
+Proof. exact Horizon2.run_many_hzn2. Qed.
+Print Assumptions run_many_hzn2.
+
+Theorem hzn2_b_sound :
+  forall (cf : State2.config) (s : State2.sim),
+       Horizon2.hzn2_b cf s = true -> Horizon2.Hzn2 cf s.
+Proof. exact Horizon2.hzn2_b_sound. Qed.
+Print Assumptions hzn2_b_sound.
+
+Theorem clk2_not_fresh :
+  exists (cf : State2.config) (s : State2.sim) 
+       (T : BinNums.Z),
+         Clock2.scope cf = true /\
+         Clock2.Clk2 cf s /\
+         HorizonCount2.CInv cf s /\
+         HorizonCount2.before2 T s = false /\
+         (exists ds : list State2.draws,
+            HorizonCount2.run_until2 cf T s ds = State2.Ok (s, ds) /\
+            ds <> nil) /\
+         (exists (nd : State2.node) (sv : State2.server) 
+          (e : BinNums.Z),
+            List.In nd (State2.nodes s) /\
+            List.In sv (State2.n_servers nd) /\
+            State2.sv_next_end sv = Some e /\ BinInt.Z.lt e T).
+Proof. exact Horizon2.clk2_not_fresh. Qed.
+Print Assumptions clk2_not_fresh.
